@@ -34,7 +34,8 @@ func (r *renderer) src(n ast.Node) string {
 // calls whose arguments matter for the model
 func significantCallee(c string) bool {
 	switch c {
-	case "panicFn", "cleanup", "fn", "recover", "l.add", "l.done", "l.w.Add", "l.w.Done", "l.w.Wait", "Recover", "len", "make":
+	case "panicFn", "cleanup", "fn", "recover", "l.add", "l.done", "l.w.Add", "l.w.Done", "l.w.Wait", "Recover", "len", "make",
+		"stack", "runtime.Callers", "runtime.CallersFrames": // the traceback helper of the library's own handler LogPanic
 		return true
 	}
 	return false
@@ -201,7 +202,7 @@ func Facts(repo string) (string, error) {
 		}
 		bodies[name] = r.block(fd.Body.List)
 	}
-	for _, need := range []string{"NewLimiter", "Limiter.Go", "Limiter.add", "Limiter.done", "Limiter.Wait", "Limiter.SetPanicHandler", "Recover"} {
+	for _, need := range []string{"NewLimiter", "Limiter.Go", "Limiter.add", "Limiter.done", "Limiter.Wait", "Limiter.SetPanicHandler", "Recover", "stack", "LogPanic"} {
 		if _, ok := bodies[need]; !ok {
 			return "", fmt.Errorf("function %s not found in goz/goz.go", need)
 		}
@@ -250,6 +251,18 @@ func Facts(repo string) (string, error) {
 	// Wait(d): everything before the untimed tail (the machine's `waitTimed` step claims
 	// that it touches neither the channel l.c nor the WaitGroup counter)
 	fmt.Fprintf(&b, "def waitTimedBody : List String := %s\n\n", leanList(w[:len(w)-1]))
+	// the library's own handler LogPanic and the buffer handling at the head of its helper
+	// stack (everything before the frame loop): a handler that panics runs before the cleanups
+	st := bodies["stack"]
+	head := st
+	for i, x := range st {
+		if strings.HasPrefix(x, "for{") {
+			head = st[:i]
+			break
+		}
+	}
+	fmt.Fprintf(&b, "def stackHead : List String := %s\n\n", leanList(head))
+	fmt.Fprintf(&b, "def logPanicBody : List String := %s\n\n", leanList(bodies["LogPanic"]))
 	b.WriteString("end Golib.Gen.C19\n")
 	return b.String(), nil
 }
